@@ -134,6 +134,53 @@ class Record(dict):
     """Symbolic record: attribute access reads fields; callables are methods."""
 
 
+class ClassRecord(Record):
+    """A record standing for a real class (`cls` / `self`): fields given explicitly win; any OTHER method of the real class is
+    translated from its current source when it is called (so a refactoring that extracts a helper method stays translatable)."""
+
+    def __init__(self, real, fields):
+        super().__init__(fields)
+        self.real = real
+
+    def method(self, name, tr):
+        raw = inspect.getattr_static(self.real, name, None)
+        fn = getattr(raw, '__func__', raw)
+        if not inspect.isfunction(fn):
+            raise Unsupported(f'record has no field {name}')
+        bound = isinstance(raw, classmethod) or not isinstance(raw, staticmethod)
+
+        def call(*args, **kw):
+            node = fn_ast(fn)
+            params = [a.arg for a in node.args.args]
+            defaults = node.args.defaults
+            env = {}
+            vals = ([self] if bound else []) + list(args)
+            if len(vals) > len(params):
+                raise Unsupported(f'too many arguments for {name}')
+            for pname, v in zip(params, vals):
+                env[pname] = v
+            for pname, d in zip(params[len(params) - len(defaults):], defaults):
+                if pname not in env:
+                    env[pname] = kw.pop(pname) if pname in kw else ast.literal_eval(d)
+            for k2, v in kw.items():
+                if k2 not in params:
+                    raise Unsupported(f'unexpected keyword {k2} for {name}')
+                env[k2] = v
+            missing = [p_ for p_ in params if p_ not in env]
+            if missing:
+                raise Unsupported(f'missing arguments {missing} for {name}')
+            sub = Tr(env, tr.universe)
+            sub.globals_ = getattr(fn, '__globals__', None)
+            sub.depth = getattr(tr, 'depth', 0) + 1
+            if sub.depth > 6:
+                raise Unsupported('helper methods nested too deeply')
+            r = sub.block(node.body)
+            if r is None:
+                raise Unsupported(f'{name}: no return')
+            return r[1]
+        return call
+
+
 # ---------------------------------------------------------------- interpreter
 class Tr:
     def __init__(self, env, universe=None):
@@ -282,6 +329,8 @@ class Tr:
         base = self.ex(n.value)
         if isinstance(base, Record):
             if n.attr not in base:
+                if isinstance(base, ClassRecord):
+                    return base.method(n.attr, self)
                 raise Unsupported(f'record has no field {n.attr}')
             return base[n.attr]
         if isinstance(base, SetBV) and n.attr in SetBV.METHODS:
